@@ -50,7 +50,9 @@ impl<'a> ProjectionStrategy for SelectionProjection<'a> {
         } = &self.plan.command
         {
             let payload_set: HashSet<String> = all_payload.into_iter().collect();
-            let projected: HashSet<String> = list
+            // Keep the RETURN order: a HashSet iterates in a different order on every call, and the
+            // memtable flow computes this list twice (batch schema, then the source's rows).
+            let projected: Vec<String> = list
                 .iter()
                 .filter(|f| {
                     ProjectionContext::is_core_field(f) || payload_set.contains(&f.to_string())
